@@ -230,7 +230,9 @@ func genE4History(t *rapid.T, o e4GenOpts) e4Case {
 			p := rapid.SampledFrom(files).Draw(t, "ifile")
 			d := pickDir()
 			q := model.Join(d, newName(d))
-			rounds := rapid.SampledFrom([]int{2, 5, 6, 12, 40}).Draw(t, "irounds")
+			// 4 extents fit in the inode, 84 (1 KiB blocks) or 340 (4 KiB) in one leaf block: the larger round
+			// counts push the tree through its first and second leaf split
+			rounds := rapid.SampledFrom([]int{2, 5, 6, 12, 40, 40, 90, 180, 350}).Draw(t, "irounds")
 			chunk := rapid.SampledFrom([]int{bs, bs, 2 * bs, bs + 3}).Draw(t, "ichunk")
 			counter++
 			np := m.Lookup(p)
